@@ -1510,6 +1510,13 @@ fn prefix_shape(set: &MSet, r: &RouteCtx) -> &'static str {
         .iter()
         .filter(|e| e.v6 == v6 && top_bits(addr, e.len, v6) == top_bits(e.addr, e.len, v6))
         .max_by_key(|e| e.len);
+    // A matching entry that shares its prefix with an entry of another range is the
+    // one the lookup table may have lost (one value per key): attribute that first, so
+    // that this known root cause is not reported under the nested-shadow signature
+    // when more specific entries happen to be present as well.
+    if multi && !matching.is_empty() {
+        return "same-prefix-multi-range";
+    }
     if let Some(l) = longest {
         let l_ok = l.min <= len && len <= l.max && l.len <= len;
         if !matching.is_empty() && !l_ok && !matching.iter().any(|m| m.len == l.len) {
